@@ -210,6 +210,11 @@ class CoreDriver:
         if plan[1] > 0:
             return None
         del self.fault_plan[s]
+        if len(plan) > 2 and plan[2] == "pathioerror":   # a backend that reports failure with aioftp's own exception type
+            import aioftp
+            return aioftp.PathIOError()
+        if len(plan) > 2 and plan[2] == "exception":     # ... or with an exception that is no OSError
+            return RuntimeError("spyfs: injected failure")
         return OSError("spyfs: injected failure")
 
     def _l_gate(self, point, port, s):
@@ -324,7 +329,7 @@ class CoreDriver:
             self.lgate_plan[st[1]] = st[2]
             return True
         elif op == "fault":
-            self.fault_plan[st[1]] = [st[2], st[3]]
+            self.fault_plan[st[1]] = [st[2], st[3]] + list(st[4:5])
             return True
         elif op in ("release", "failrelease"):
             # release (or fail: the held backend calls raise OSError at that instant) everything held for the session
